@@ -12,6 +12,7 @@ import (
 	"io"
 	"os"
 	"strings"
+	"sync"
 	"testing"
 
 	"pgregory.net/rapid"
@@ -440,6 +441,9 @@ type c04Repeat struct {
 	Doc   int `json:"doc"`   // asset index (>= 0) or -(scenario index + 1)
 	Twin  int `json:"twin"`  // second document concatenated (or -1)
 	Times int `json:"times"` // repetitions inside the process
+	// Expect is filled in by the driver when separate processes disagreed: the result another process observed for
+	// this case. A replay (which runs after a non-trivial pre-history) must reproduce it.
+	Expect string `json:"expect,omitempty"`
 }
 
 func c04RepeatInput(cl *Classifier, c *c04Repeat) ([]byte, string) {
@@ -472,7 +476,34 @@ func c04RepeatInput(cl *Classifier, c *c04Repeat) ([]byte, string) {
 // c04RepeatEnum: every embedded document (every third in the quick tier), every scenario file, and every pair of
 // token-identical corpus documents found by a white-box scan (tie-prone inputs). NOT sharded: every process runs
 // the same batch so that the driver can compare the digests of separate processes (different map seeds).
+// c04Prehistory gives every process a different past before the common batch starts: other classifier instances
+// over the same corpus at other thresholds, matched against and normalised with. Results must not depend on it.
+func c04Prehistory() {
+	shard := lib.EnvInt("VERIF_SHARD", 0)
+	if os.Getenv("VERIF_MODE") == "replay" {
+		shard = 1 // a replayed case gets a non-trivial past as well
+	}
+	a := assets()
+	switch shard % 4 {
+	case 1:
+		o := buildClassifier(0.7, a)
+		o.Match(a[10].Content)
+	case 2:
+		o := buildClassifier(0.9, a)
+		o.Match(a[200].Content)
+		o.Normalize(a[201].Content)
+	case 3:
+		o := buildClassifier(1.0, a[:200])
+		o.Match(a[3].Content)
+		o2 := buildClassifier(0.5, a[200:])
+		o2.Match(a[300].Content)
+	}
+}
+
+var c04PreOnce sync.Once
+
 func c04RepeatEnum(yield func(interface{}) bool) {
+	c04PreOnce.Do(c04Prehistory)
 	cl := classifierFor(0.8, corpusSel{Full: true})
 	a := assets()
 	step := 1
@@ -517,6 +548,7 @@ func c04RepeatEnum(yield func(interface{}) bool) {
 
 func c04RepeatCheck(ci interface{}) lib.Outcome {
 	c := ci.(*c04Repeat)
+	c04PreOnce.Do(c04Prehistory)
 	cl := classifierFor(0.8, corpusSel{Full: true})
 	in, desc := c04RepeatInput(cl, c)
 	first := cl.Match(in)
@@ -533,6 +565,9 @@ func c04RepeatCheck(ci interface{}) lib.Outcome {
 		if s := resultString(got); s != fs {
 			return lib.Outcome{Violation: fmt.Sprintf("Match(%s) repeated on the same classifier: call %d differs from call 1\n%s", desc, k+1, diffResults(first, got))}
 		}
+	}
+	if c.Expect != "" && c.Expect != desc+"\n"+fs {
+		return lib.Outcome{Violation: fmt.Sprintf("Match(%s) in this process differs from what another process (different history of classifier instances) observed\nother process:\n%s\nthis process:\n%s", desc, c.Expect, desc+"\n"+fs)}
 	}
 	ties := false
 	for i := 1; i < len(first.Matches); i++ {
@@ -574,6 +609,120 @@ func TestVerif_C04_CallerBytes(t *testing.T) {
 
 func TestVerif_C04_Repeat(t *testing.T) {
 	lib.Run(t, lib.Spec{ID: "C04", Part: "repeat",
-		Rule: "embedded documents in context (every 4th in quick, all in thorough), all scenario files and every pair of token-identical corpus documents (white-box scan), each matched 3-12 times on one full-corpus classifier: all calls identical; the same batch runs in several separate processes whose ordered result digests the driver compares; non-trivial = result with more than one match",
+		Rule: "embedded documents in context (every 4th in quick, all in thorough), all scenario files and every pair of token-identical corpus documents (white-box scan), each matched 3-12 times on one full-corpus classifier: all calls identical; the same batch runs in several separate processes, each after a different pre-history (other classifier instances over the same corpus at thresholds 0.5-1.0, matched and normalised with), and the driver compares their ordered result digests; non-trivial = result with more than one match",
 		New:  func() interface{} { return &c04Repeat{} }, Enum: c04RepeatEnum, Check: c04RepeatCheck})
+}
+
+// ------------------------------------------------------------------ part 5: low-vocabulary, self-repeating documents
+
+// Documents that repeat their own word runs make several source positions map to the same target position; any
+// decision that depends on the order in which such ties are visited shows up as run-to-run differences.
+type c04Rep struct {
+	Thr   float64 `json:"thr"`
+	Vocab int     `json:"vocab"`
+	Doc   []int   `json:"doc"`   // word indices of the corpus document
+	Input []int   `json:"input"` // word indices of the input; negative = an out-of-vocabulary word
+	Times int     `json:"times"`
+}
+
+func c04RepWords(ws []int, vocab int) string {
+	var sb strings.Builder
+	for i, w := range ws {
+		if i > 0 {
+			if i%12 == 0 {
+				sb.WriteByte('\n')
+			} else {
+				sb.WriteByte(' ')
+			}
+		}
+		if w < 0 {
+			fmt.Fprintf(&sb, "zzw%c%c", 'a'+byte((-w)%26), 'a'+byte((-w/26)%26))
+		} else {
+			k := w % vocab
+			fmt.Fprintf(&sb, "w%c%c", 'a'+byte(k%8), 'a'+byte(k/8))
+		}
+	}
+	return sb.String()
+}
+
+func c04RepGen(t *rapid.T) interface{} {
+	c := &c04Rep{Thr: lib.PickFloat(t, []float64{0.5, 0.6, 0.7, 0.75, 0.8}, "thr"), Vocab: lib.IntN(t, 6, 24, "vocab"), Times: 25}
+	// document: random words with copy-pasted runs
+	n := lib.IntN(t, 20, 70, "ndoc")
+	for len(c.Doc) < n {
+		if len(c.Doc) > 6 && lib.IntN(t, 0, 2, "repeatRun") == 0 {
+			s := lib.IntN(t, 0, len(c.Doc)-3, "runFrom")
+			l := lib.IntN(t, 2, 8, "runLen")
+			if s+l > len(c.Doc) {
+				l = len(c.Doc) - s
+			}
+			c.Doc = append(c.Doc, c.Doc[s:s+l]...)
+		} else {
+			c.Doc = append(c.Doc, lib.IntN(t, 0, c.Vocab-1, "word"))
+		}
+	}
+	// input: noise, then the document with edits, then noise
+	in := lib.Ints(t, 0, 10, 0, c.Vocab-1, "prefix")
+	for i := 0; i < len(c.Doc); i++ {
+		switch lib.Weighted(t, []int{78, 6, 6, 5, 5}, "edit") {
+		case 0:
+			in = append(in, c.Doc[i])
+		case 1: // deletion
+		case 2:
+			in = append(in, -lib.IntN(t, 1, 600, "oov"), c.Doc[i])
+		case 3:
+			in = append(in, lib.IntN(t, 0, c.Vocab-1, "sub"))
+		case 4: // a short run from elsewhere in the document is inserted
+			s := lib.IntN(t, 0, len(c.Doc)-1, "moveFrom")
+			e := s + lib.IntN(t, 1, 4, "moveLen")
+			if e > len(c.Doc) {
+				e = len(c.Doc)
+			}
+			in = append(in, c.Doc[s:e]...)
+			in = append(in, c.Doc[i])
+		}
+	}
+	in = append(in, lib.Ints(t, 0, 10, 0, c.Vocab-1, "suffix")...)
+	c.Input = in
+	return c
+}
+
+func c04RepCheck(ci interface{}) lib.Outcome {
+	c := ci.(*c04Rep)
+	if c.Vocab < 1 || c.Vocab > 64 || !(c.Thr > 0 && c.Thr <= 1) || len(c.Doc) == 0 || len(c.Doc) > 2000 || len(c.Input) > 5000 {
+		return lib.Outcome{Skip: "malformed"}
+	}
+	doc := []byte(c04RepWords(c.Doc, c.Vocab))
+	in := []byte(c04RepWords(c.Input, c.Vocab))
+	build := func() *Classifier {
+		cl := NewClassifier(c.Thr)
+		cl.AddContent("License", "Rep", "license.txt", doc)
+		return cl
+	}
+	cl := build()
+	first := cl.Match(in)
+	fs := resultString(first)
+	times := c.Times
+	if times < 2 || times > 200 {
+		times = 25
+	}
+	for k := 1; k < times; k++ {
+		cc := cl
+		if k%3 == 0 {
+			cc = build() // a separately built instance must agree as well
+		}
+		got := cc.Match(in)
+		if s := resultString(got); s != fs {
+			return lib.Outcome{Violation: fmt.Sprintf("threshold %v, document %q, input %q: call %d differs from call 1\n%s", c.Thr, doc, in, k+1, diffResults(first, got))}
+		}
+	}
+	lic := len(licensesOnly(rawList(first)))
+	return lib.Outcome{Nontrivial: lic > 0, FP: fmt.Sprintf("%v|%v|%v|%d", c.Thr, c.Doc, c.Input, c.Vocab),
+		Sample: map[string]interface{}{"threshold": c.Thr, "vocabulary": c.Vocab, "document_words": len(c.Doc), "input_words": len(c.Input), "result": fmtRecs(rawList(first))}}
+}
+
+func TestVerif_C04_Repetitive(t *testing.T) {
+	lib.Run(t, lib.Spec{ID: "C04", Part: "repetitive",
+		Rule: "a corpus of one synthetic document over a vocabulary of 6-24 words that repeats its own word runs (copy-pasted runs of 2-8 words), thresholds 0.5-0.8; input = the document with deletions, OOV insertions, substitutions and inserted runs, in noise; Match is repeated 25 times on the same classifier and on separately built instances: all calls identical; non-trivial = a license match is reported",
+		New:  func() interface{} { return &c04Rep{} }, Gen: c04RepGen, Check: c04RepCheck})
 }
